@@ -9,7 +9,7 @@ package keeper
 // ---- C20: execution-layer parameter requests keep the bounds -----------------
 
 //@ func (Keeper).ProcessBridgeRequest
-//@ property C20 C05 C18
+//@ property C20 C05 C18 C03
 //@ let W = st.bitcoin.Withdrawals
 // C18 (import acceptance): genesis import panics unless Params.Validate accepts the exported parameters; besides the C20 bounds
 // that is the tax pair rule of Params.Validate (a positive rate needs a cap in (0, 1e8], a zero rate needs a zero cap). Every value
